@@ -265,7 +265,8 @@ Proof.
       * now rewrite (is_prefix_false_neq _ _ Pq).
     + (* a directory *)
       assert (Dx : is_dir t x = true) by (rewrite is_dir_nonroot, Fx; auto). rewrite Dx.
-      apply (cf_body_ok _ f t x T _ _ IHf); auto.
+      cbn [negb andb].
+      apply (cf_body_ok _ f t x T (hb (h1 + h1 + h2 + h2)) O IHf); auto.
 Qed.
 
 (* ---------- fuel: the depth of a well-formed tree is at most its number of entries ---------- *)
@@ -308,11 +309,12 @@ Proof.
   rewrite lookup_nonroot in X by (now apply app_nonnil_l). exact X.
 Qed.
 
-Lemma m_copy_dir_refines t s str d dtr r t' :
+Lemma m_copy_dir_refines fa t s str d dtr r t' :
+  copy_ok fa = true ->
   wf t -> is_dir t s = true -> r_copy t (P s str) (P d dtr) = Out r t' ->
-  exists t'' h, m_copy (rm_fuel t) t s str d dtr = Some (r, t'', h) /\ (forall q, find_entry t'' q = find_entry t' q) /\ wf t''.
+  exists t'' h, m_copy fa (rm_fuel t) t s str d dtr = Some (r, t'', h) /\ (forall q, find_entry t'' q = find_entry t' q) /\ wf t''.
 Proof.
-  intros W Ds. unfold r_copy, parg_eqb, rm_fuel. simpl.
+  intros OK W Ds. pose proof OK as OK'. facts_literal fa OK. unfold r_copy, parg_eqb, rm_fuel. simpl.
   destruct (path_eqb s d && Bool.eqb str dtr); [intros H; inv_o H; eauto|].
   destruct (arg_conflict t s str) eqn:Ca; [discriminate|]. destruct (arg_conflict t d dtr) eqn:Cd; [discriminate|]. simpl.
   destruct (arg_conflict_false _ _ _ Cd) as [Tfd _].
@@ -348,7 +350,7 @@ Proof.
   - (* into an existing directory: d/base(src) *)
     rewrite (is_dir_exists' _ _ Id). simpl. fold dst. unfold dst at 1 2 3. 
     assert (PT : is_dir t (parent dst) = true) by (unfold dst; now rewrite parent_app_singleton).
-    destruct (cf_body_ok (length t) t (n :: s) dst (1 + 1 + h2 + h2 + 0)%nat (inner_all _) W ltac:(discriminate) Fs Hd PT P1 P2 NC (shallow_any _ _ W))
+    destruct (cf_body_ok _ (length t) t (n :: s) dst (hb (1 + 1 + h2 + h2)) O (inner_all _ _ OK') W ltac:(discriminate) Fs Hd PT P1 P2 NC (shallow_any _ _ W))
       as [t'' [h [E [W'' C]]]].
     unfold cf_body in E. exists t'', h. split; [exact E|]. split; auto.
     intros q. rewrite (C q), find_graft. unfold unroot.
@@ -381,7 +383,7 @@ Proof.
         pose proof (is_prefix_antisym _ _ E0 (is_prefix_app d (y :: r0))) as X. exfalso. revert X. apply app_cons_neq. }
     assert (Sh1 : shallow t1 (n :: s) (S (length t))).
     { intros q Pq Fq. apply is_prefix_spec in Pq as [r0 ->]. rewrite SrcSame in Fq. exact (shallow_any t (n :: s) W _ (is_prefix_app _ _) Fq). }
-    destruct (cf_body_ok (length t) t1 (n :: s) d (S (S (h2 + h2 + m_opened (m_mkdir t d))))%nat (inner_all _) W1 ltac:(discriminate) F1 Hd PT P1 P2 NC1 Sh1)
+    destruct (cf_body_ok _ (length t) t1 (n :: s) d (hb (1 + 1 + h2 + h2)) (m_opened (m_mkdir t d)) (inner_all _ _ OK') W1 ltac:(discriminate) F1 Hd PT P1 P2 NC1 Sh1)
       as [t'' [h [E [W'' C]]]].
     unfold cf_body in E. exists t'', h. split; [exact E|]. split; auto.
     intros q. rewrite (C q), find_graft. reflexivity.
@@ -391,15 +393,16 @@ Local Arguments m_copy : simpl never.
 Local Arguments rm_fuel : simpl never.
 
 (* CopyToDirectory of a directory: MkDir(dest), then the same copy *)
-Lemma m_copytodir_dir_refines t s str d dtr r t' :
+Lemma m_copytodir_dir_refines fa t s str d dtr r t' :
+  copy_ok fa = true ->
   wf t -> is_dir (mkdirp t d) s = true -> r_copytodir t (P s str) (P d dtr) = Out r t' ->
-  exists t'' h, m_copytodir (rm_fuel (mkdirp t d)) t (P s str) d dtr = Some (r, t'', h)
+  exists t'' h, m_copytodir fa (rm_fuel (mkdirp t d)) t (P s str) d dtr = Some (r, t'', h)
                 /\ (forall q, find_entry t'' q = find_entry t' q) /\ wf t''.
 Proof.
-  intros W Ds. unfold r_copytodir, m_copytodir.
+  intros OK W Ds. unfold r_copytodir, m_copytodir.
   destruct (through_file t d) eqn:Tf; [discriminate|]. destruct (is_file t d) eqn:Nf; [discriminate|]. simpl.
   destruct (arg_conflict t s str); [discriminate|].
   destruct (m_mkdir3_ok t d W Tf Nf) as [h1 E]. unfold m_mkdir3 in E. inversion E as [[E1 E2 E3]]. rewrite E1, E2.
-  intros H. destruct (m_copy_dir_refines (mkdirp t d) s str d dtr r t' (wf_mkdirp _ _ W Tf Nf) Ds H) as [t'' [h [Em [Eq W'']]]].
+  intros H. destruct (m_copy_dir_refines fa (mkdirp t d) s str d dtr r t' OK (wf_mkdirp _ _ W Tf Nf) Ds H) as [t'' [h [Em [Eq W'']]]].
   rewrite Em. eauto.
 Qed.
